@@ -188,6 +188,10 @@ class NumericArray(list):
         raise gfapy.FormatError("Numeric array string ends with comma\n"+
           "String: {}".format(string))
     elems = string.split(",")
+    if not valid and len(elems) < 2:
+      raise gfapy.FormatError(
+          "Numeric array string has no elements\n"+
+          "String: {}".format(string))
     subtype = elems[0]
     if subtype not in NumericArray.SUBTYPE:
       raise gfapy.TypeError("Subtype {} unknown".format(subtype))
